@@ -3,11 +3,12 @@
 Two layers: the functional tree model (areas/tree.py: multiset / order /
 traversal theorems) and the link-level model (areas/treel.py: the pointer code
 with l/r/p links refines the functional model; parent links proved)."""
-from areas import tree, treel
+from areas import tree, treel, treel_tie
 
 
 def run(chk):
     treel.link_level_run(chk)
+    treel_tie.tie2_run(chk)
     return tree.run_check(chk, "C01")
 
 
